@@ -182,7 +182,9 @@ def isqrt (n : Nat) : Nat := (List.range (n + 1)).foldl (fun k x => if x * x ≤
 
 /-- the writes `partitioning->at(read) = bit` of `get_optimal_partitioning`, in execution order -/
 def partWrites (I : Inst) (path : List (Nat × Nat)) : List (Nat × Bool) :=
-  path.zipIdx.flatMap (fun vc => (I.activeAt vc.2).zipIdx.map (fun rj => (rj.1, vc.1.1.testBit rj.2)))
+  (List.range path.length).flatMap (fun c =>
+    (List.range (I.activeAt c).length).map (fun j =>
+      ((I.activeAt c).getD j 0, (path.getD c (0, 0)).1.testBit j)))
 
 /-- `get_optimal_partitioning` as Python sees it (`true` = partition 1 = bit set; never written = 1) -/
 def partOf (I : Inst) (path : List (Nat × Nat)) : List Bool :=
@@ -195,7 +197,8 @@ def ckptWitnessK (I : Inst) (ord : Ord) (k : Nat) : Option (List Bool × List Na
 /-- `get_super_reads`: per column `get_alleles` after `set_partitioning(index_path[c].index)` under
 `index_path[c].inheritance_value` -/
 def superReadsOf (I : Inst) (path : List (Nat × Nat)) : List (Option (List (Nat × Nat))) :=
-  path.zipIdx.map (fun vc => getAlleles I vc.2 (bitsOf (I.activeAt vc.2).length vc.1.1) vc.1.2)
+  (List.range path.length).map (fun c =>
+    getAlleles I c (bitsOf (I.activeAt c).length (path.getD c (0, 0)).1) (path.getD c (0, 0)).2)
 
 /-- the solver as coded: Gray-code order, spacing `⌊√n⌋` -/
 def ckptPath (I : Inst) : Option (List (Nat × Nat)) := ckptPathK I grayOrd (isqrt I.ncols)
